@@ -14,6 +14,7 @@ FAMILIES = {
     "merge": "harness.check_merge",
     "links": "harness.check_links",
     "validation": "harness.check_validation",
+    "registry": "harness.check_registry",
 }
 # property -> families whose judges print verdicts for it
 PROPS = {
@@ -24,6 +25,7 @@ PROPS = {
     "C13": ["merge"],
     "C12": ["links"],
     "C08": ["validation"],
+    "C19": ["registry"],
 }
 EXPLAIN = {}
 
